@@ -13,6 +13,10 @@ func (w *World) protoOf(name string) string {
 	if strings.HasPrefix(name, "yield.") {
 		return name
 	}
+	if strings.HasPrefix(name, "each.") {
+		// a slice of function values each of which obeys a protocol
+		return "each." + w.protoOf(strings.TrimPrefix(name, "each."))
+	}
 	if _, ok := w.CS.ByKey["stream."+name]; ok {
 		return "stream." + name
 	}
@@ -25,6 +29,11 @@ func (w *World) protoOf(name string) string {
 // protoCompatible: a value obeying protocol got may be used where want is expected.
 func (w *World) protoCompatible(got, want string) bool {
 	if got == want {
+		return true
+	}
+	if strings.HasPrefix(want, "each.") {
+		// closed world: which function values a slice may hold is a property of the element type (e.g. gtree.Option values
+		// can only come from the With* constructors, *config being unexported); it is not tracked through slices
 		return true
 	}
 	if strings.HasPrefix(got, "stream.") && strings.HasPrefix(want, "stream.") {
